@@ -2,13 +2,14 @@
 (* Constants, scenario families and scenario emission for Redirect (C05, C06).                    *)
 (*   Family "free"    : stage 1 -- every chain of <= MaxHops answers over the hop alphabet, for   *)
 (*                      every configuration of FreeCfgs (VIEW collapses histories).                *)
-(*   Family "budget"  : planned chains x policy values x placements x clients   (C05 scenarios)   *)
-(*   Family "headers" : planned chains x spellings x carriers x remove sets     (C06 scenarios)   *)
+(*   Family "planned" : budget scenarios  (planned chains x policy values x placements x clients)  *)
+(*                      header scenarios  (planned chains x spellings x carriers x remove sets),   *)
+(*                      each sampled 1 in SampleKB / SampleKH by a seeded hash                     *)
 (*   Family "sim"     : free mode over the full configuration space, for tlc -simulate.           *)
 (* A scenario is printed when the Model terminates, with the Model's expected observations.       *)
 EXTENDS Redirect, Json
 
-CONSTANTS Family, ShardK, ShardS, SampleK, Seed, Lmax, Codes, Alpha, ClientFilter
+CONSTANTS Family, ShardK, ShardS, SampleKB, SampleKH, Seed, LmaxB, LmaxH, Codes, Alpha, ClientFilter
 
 -----------------------------------------------------------------------------
 \* sites: <<scheme, host as written, port as written (0 = none)>>
@@ -93,8 +94,7 @@ ExtraOK(x) == /\ (x.start.scheme = "https" => x.client = "pm")
 
 MCCfgSet ==
     LET all == CASE Family = "free"    -> {x \in BudgetCfgs : Alpha = "full" \/ x.method = "POST"} \cup HeaderCfgsSmall \cup {x \in ExtraCfgs : ExtraOK(x)}
-                 [] Family = "budget"  -> BudgetCfgs \cup {x \in ExtraCfgs : ExtraOK(x)}
-                 [] Family = "headers" -> HeaderCfgs
+                 [] Family = "planned" -> BudgetCfgs \cup HeaderCfgs \cup {x \in ExtraCfgs : ExtraOK(x)}
                  [] Family = "sim"     -> BudgetCfgs \cup HeaderCfgs \cup {x \in ExtraCfgs : ExtraOK(x)}
     IN {x \in all : InShard(x.id) /\ (ClientFilter = "all" \/ x.client = ClientFilter)}
 
@@ -137,14 +137,17 @@ PatOK(c, k, pats) ==
       [] c.client = "pm"    -> ~(pat \in {"pxorigin", "bpx", "samepx"}) /\ (c.start.scheme = "https" => pat \in {"pathabs", "rel", "https", "cross"})
       [] c.client = "proxy" -> ~(pat \in {"https", "schemeonly"})
 Sels == Codes \cup {1, 2}
-Pick(id, k, sel, len) == (id * 7 + k * 13 + sel * 5 + len * 3 + Seed) % SampleK = 0
+IsHeaderCfg(c) == c.id >= 100000 /\ c.id < 200000
+Pick(id, k, sel, len, samplek) == (id * 7 + k * 13 + sel * 5 + len * 3 + Seed) % samplek = 0
 \* a file body is only combined with chains whose first answer is a 303 (later hops are body-less; D3/D4 are C11's)
 FileOK(c, sel) == c.body = "file" => sel = 303
 
 MCPlanSet(c) ==
-    LET pats == IF Family = "budget" THEN BudgetPats ELSE HeaderPats IN
+    LET pats == IF IsHeaderCfg(c) THEN HeaderPats ELSE BudgetPats
+        lmax == IF IsHeaderCfg(c) THEN LmaxH ELSE LmaxB
+        samplek == IF IsHeaderCfg(c) THEN SampleKH ELSE SampleKB IN
     { Chain(pats[k], sel, len) : <<k, sel, len>> \in
-        { x \in (1..Len(pats)) \X Sels \X (1..Lmax) : PatOK(c, x[1], pats) /\ FileOK(c, x[2]) /\ Pick(c.id, x[1], x[2], x[3]) } }
+        { x \in (1..Len(pats)) \X Sels \X (1..lmax) : PatOK(c, x[1], pats) /\ FileOK(c, x[2]) /\ Pick(c.id, x[1], x[2], x[3], samplek) } }
 
 -----------------------------------------------------------------------------
 \* free mode: every answer the environment may give next (Alpha = "small" | "full")
